@@ -12,7 +12,7 @@ theorem parseFile_error_inv {fuel : Nat} {file : Str} {upper : List (Str × Nat)
     (h : parseFile cfg fs fuel file upper = .error e) :
     (fuel = 0 ∧ e = .outOfFuel) ∨
     ∃ n, fuel = n + 1 ∧
-      ((fs.read (normPath file) = none ∧ e = .notFound file upper) ∨
+      ((fs.read (normPath file) = none ∧ e = missingKind fs file upper) ∨
        ∃ script, fs.read (normPath file) = some script ∧
         ((∃ pf, parse cfg script = .error pf ∧ e = .parse pf file upper) ∨
          ∃ recs, parse cfg script = .ok recs ∧ expandRecs cfg fs n file upper recs = .error e)) := by
@@ -86,7 +86,7 @@ end inv
 
 /-- error `e` happened at file `g` whose chain of include sites is `chain` -/
 def ErrAt (cfg : PCfg) (fs : Fs) (g : Str) (chain : List (Str × Nat)) (e : IFail) : Prop :=
-  (fs.read (normPath g) = none ∧ e = .notFound g chain) ∨
+  (fs.read (normPath g) = none ∧ e = missingKind fs g chain) ∨
   (∃ script pf, fs.read (normPath g) = some script ∧ parse cfg script = .error pf ∧
       e = .parse pf g chain) ∨
   (∃ script recs l pat, fs.read (normPath g) = some script ∧ parse cfg script = .ok recs ∧
@@ -172,7 +172,10 @@ theorem parseFile_error_located :
 
 theorem ErrAt.ne_outOfFuel {g : Str} {chain : List (Str × Nat)} {e : IFail}
     (h : ErrAt cfg fs g chain e) : e ≠ .outOfFuel := by
-  rcases h with ⟨_, rfl⟩ | ⟨_, _, _, _, rfl⟩ | ⟨_, _, _, _, _, _, _, _, rfl⟩ <;> intro h <;> cases h
+  rcases h with ⟨_, rfl⟩ | ⟨_, _, _, _, rfl⟩ | ⟨_, _, _, _, _, _, _, _, rfl⟩
+  · intro h; unfold missingKind at h; split at h <;> cases h
+  · intro h; cases h
+  · intro h; cases h
 
 /-- **Enough fuel**: if every chain of include sites below the root is shorter than `fuel`, the
     run does not end with `outOfFuel`. -/
